@@ -312,9 +312,14 @@ def _prove_int(pc, claim, timeout_nia, timeout_lia, stats, max_mult_vars):
         # first without the conjuncts that talk about bit-vector symbols (byte-length bookkeeping): dropping
         # hypotheses is sound for a proof and keeps the linear problem small; then with everything
         pure = [a for c, a in zip(conj, absconj) if not has_bv(c)]
-        for subset, budget in ((pure, 15000), (absconj, min(timeout_lia, 25000))):
-            if subset is absconj and len(pure) == len(absconj):
-                break
+        nlmult = [v for v in mult if v in nl]
+        plans = [(pure, nlmult, 20000), (pure, mult, 30000), (absconj, mult, min(timeout_lia, 30000))]
+        seen = set()
+        for subset, mvars, budget in plans:
+            key = (id(subset), len(mvars))
+            if key in seen or (subset is absconj and len(pure) == len(absconj) and (id(pure), len(mvars)) in seen):
+                continue
+            seen.add(key)
             s2 = z3.Solver()
             s2.set('timeout', budget)
             for c in subset:
@@ -323,7 +328,7 @@ def _prove_int(pc, claim, timeout_nia, timeout_lia, stats, max_mult_vars):
             for h in hyps:
                 if h.degree() > 2:
                     continue
-                for v in mult:
+                for v in mvars:
                     s2.add(L.lin(Poly.var(v) * h) == 0)
                     nlem += 1
             r2 = s2.check()
@@ -332,7 +337,7 @@ def _prove_int(pc, claim, timeout_nia, timeout_lia, stats, max_mult_vars):
             if r2 == z3.unsat:
                 if stats is not None:
                     stats['solver_s'] = stats.get('solver_s', 0) + time.time() - t0
-                return ('proved', 'linear abstraction, %d hypotheses x %d multipliers' % (len(hyps), len(mult)))
+                return ('proved', 'linear abstraction, %d hypotheses x %d multipliers' % (len(hyps), len(mvars)))
     # the abstraction has a model: hunt for a genuine counterexample by pinning the input symbols to the
     # abstraction's model values (the exact query then is mostly ground arithmetic)
     try:
